@@ -47,6 +47,12 @@ def c01_probes() -> list[Item]:
     # CODECOPY straddling the end of the code zero-fills
     out.append(_p("codecopy-past-end",
                   [("PUSHN", 32, (1 << 256) - 1), ("PUSH", 0), "MSTORE", ("PUSH", 32), ("PUSH", 4), "CODESIZE", "SUB", ("PUSH", 0), "CODECOPY", ("PUSH", 0), "MLOAD"] + RET))
+    # after a conditional jump to an invalid destination the fall-through goes on under the negated condition:
+    # if (x < 10) invalid; if (x > 20) return 0xA else return 0xB
+    out.append(_p("jumpi-invalid-then-branch",
+                  [("PUSH", 10), ("PUSH", 0), "CALLDATALOAD", "LT", ("PUSH", 0xFFFF), "JUMPI",
+                   ("PUSH", 20), ("PUSH", 0), "CALLDATALOAD", "GT", ("PUSHL", "a"), "JUMPI", ("PUSH", 0xB)] + RET + [("LABEL", "a"), ("PUSH", 0xA)] + RET,
+                  inputs=[{"cd0": 5, "cd1": 0}, {"cd0": 15, "cd1": 0}, {"cd0": 25, "cd1": 0}, {"cd0": 2**255, "cd1": 0}, {"cd0": 20, "cd1": 0}]))
     # a loop whose head is the JUMPDEST at pc 0: the backward JUMP must land there
     out.append(_p("loop-head-at-pc0",
                   [("LABEL", "h"), ("PUSH", 0), "MLOAD", ("PUSHL", "x"), "JUMPI", ("PUSH", 1), ("PUSH", 0), "MSTORE", ("PUSHL", "h"), "JUMP", "INVALID",
